@@ -160,6 +160,10 @@ def _mk(g, table, cfg, recovery):
     f = peers.make_filter(cfg.get("filter"))
     if f:
         kw["dynamic_filter"] = f
+    if table is None:
+        # the parser builds its own table: construction-time defaults that depend on
+        # the other arguments (recovery included) are in play
+        return cls(g, **kw)
     for k in ("tables", "prefer_shifts", "prefer_shifts_over_empty"):
         kw.pop(k, None)
     return cls(g, table=table, **kw)
@@ -256,9 +260,11 @@ def child_parses(spec, jobs):
             rep = {"probs": [], "kind": cfg["kind"], "mode": job["recovery"]}
             # T0: the same parser without recovery on the undamaged sentence
             peers.SEAM.reset(None)
-            p0 = base_parsers.get(tkey) if spec.get("reuse") else None
+            own = bool(job.get("own_table"))
+            p0 = base_parsers.get((tkey, own)) if spec.get("reuse") else None
             if p0 is None:
-                p0 = base_parsers[tkey] = _mk(g, table, cfg, None)
+                clock.reset()
+                p0 = base_parsers[(tkey, own)] = _mk(g, None if own else table, cfg, None)
             clock.reset(BASE_BUDGET)
             try:
                 try:
@@ -291,11 +297,12 @@ def child_parses(spec, jobs):
                 continue
             # the recovering parse under the step clock
             budget = 200 * (t0 + 2000) + 100 * len(text) ** 2
-            pkey = (tkey, job["recovery"])
+            pkey = (tkey, job["recovery"], own)
             mon = parsers.get(pkey) if spec.get("reuse") else None
             if mon is None:
                 mon = Mon(clock, job["recovery"])
-                mon.attach(_mk(g, table, cfg, mon.strategy()))
+                clock.reset()
+                mon.attach(_mk(g, None if own else table, cfg, mon.strategy()))
                 if spec.get("reuse"):
                     parsers[pkey] = mon
             mon.begin(job["peer_seed"])
@@ -573,6 +580,11 @@ def gen_run(rng, tier):
         job = {"cfg": cfg, "input": text, "clean": clean,
                "recovery": rng.choice(modes), "peer_seed": rng.getrandbits(32),
                "faults": fired}
+        if job["peer_seed"] % 8 == 0 and sc["family"] != "random":
+            # both parsers of this parse (with and without recovery) build their own
+            # table instead of sharing the precomputed one (no PRNG draw: the stream of
+            # generated histories stays what it was)
+            job["own_table"] = True
         if reuse and rng.random() < 0.25:
             seams = ["ctr", "recovery"]
             if spec["recs"]:
